@@ -245,7 +245,7 @@ def shard_addr(rec):
 
 # ------------------------------------------------------------------ sequences (S)
 ALPHABET = [
-    ['bit', 1], ['bool', 0], ['uint', 1, 1], ['uint', 200, 8], ['uint', (1 << 64) - 1, 64], ['uint', 1 << 255, 256],
+    ['bit', 1], ['bool', 0], ['uint', 0, 0], ['int', 0, 0], ['uint', 1, 1], ['uint', 200, 8], ['uint', (1 << 64) - 1, 64], ['uint', 1 << 255, 256],
     ['int', -1, 1], ['int', -3, 7], ['int', -(1 << 256), 257], ['int', 12345, 33],
     ['var_uint', 0, 4], ['var_uint', 300, 4], ['var_uint', (1 << 120) - 1, 4], ['var_int', -129, 5], ['var_int', 128, 3],
     ['coins', 0], ['coins', 10 ** 9],
